@@ -727,6 +727,9 @@ def r01_3(ctx):
     if ok:
         gs = normalized_guards(ctx, b, bs[0][0])
         ok = any(op == 'true' and a[0] in ('phi', 'rec') for op, a, b2, si in gs)
+        # mask form of the winding test: the guard is the test itself, (count & mask) != 0
+        mt = getattr(ctx, 'mask_tests', set())
+        ok = ok or any(op == 'Ne' and nosite(('bin', 'Ne', a, b2)) in mt for op, a, b2, si in gs if b2 is not None)
     ctx.check(ok, R, key + '|blit only when inside', b.loc(), 'blit_span under `inside`', 'scan_edges does not blit spans exactly under the inside test')
 
 
